@@ -37,13 +37,14 @@ theorem invB_init (c) : InvB c init := by
 set_option hygiene false in
 macro "b_tac" : tactic => `(tactic| (
   have a2 := hA.b_loc
+  have a11 := hA.fresh
   clear hA
   obtain ⟨h1, h2, h3, h4, h5, h6, h7, h8, h9⟩ := h
   simp only [step] at st
   (repeat' split at st)
   all_goals (first | (simp at st; done) | skip)
   all_goals (simp only [Option.some.injEq] at st; subst st)
-  all_goals (constructor <;> first | assumption | (simp only [upd, lockS, unlockS, newHelper, relocate, K.cont, gpMayEnd, nthr] at * <;>
+  all_goals (constructor <;> first | assumption | (simp only [upd, lockS, unlockS, newHelper, relocate, nestOn, csOn, nestOff, K.cont, gpMayEnd, nthr] at * <;>
     grind [upd, relocate, Loc.queued, → mem_of_head?, → userCtx_lt]))))
 
 theorem invb_rlock (c : Cfg) {s s' : State} (hA : InvA c s) (h : InvB c s) (t : _)
